@@ -362,7 +362,14 @@ func (h *handler) handleMessage(ctx context.Context, msg hwebsocket.Msg, respond
 }
 
 func (h *handler) disconnect(err error) {
-	h.disconnectChan <- err
+	select {
+	case h.disconnectChan <- err:
+	default:
+		// Disconnections are already pending and one is enough. Blocking
+		// here would deadlock the main loop on its own queue (it is the only
+		// reader) or keep Handle waiting forever for a sender or receiver
+		// goroutine that reports its error after the loop has ended.
+	}
 }
 
 func (h *handler) handleDisconnect(err error) {
